@@ -324,7 +324,7 @@ func (propC10) Execute(pp any, x *X) *Violation {
 				r2 := newResults()
 				w2 := vsim.NewWorld(cfg, w.Decisions(), 1)
 				w2.Run(runClients(r2))
-				if !w2.Aborted && w2.NPanics == 0 && r2[c][i].Same(want) {
+				if w.Probes[vsim.PPoolHit] > 0 && !w2.Aborted && w2.NPanics == 0 && r2[c][i].Same(want) {
 					class = "pool-reuse"
 				}
 				return &Violation{Prop: "C10", Sig: class + ":" + op.Kind + ":" + codecOf(op),
